@@ -242,6 +242,11 @@ func main() {
 	}
 	r := coqgen.Rand()
 	thorough := coqgen.Thorough()
+	if thorough {
+		coqgen.Watchdog(25 * time.Minute)
+	} else {
+		coqgen.Watchdog(5 * time.Minute)
+	}
 	defer wire.Cleanup()
 	w := coqgen.Create(os.Args[1])
 	defer w.Close()
